@@ -3,7 +3,7 @@
    PP.Proofs.C28_sqrt. *)
 From Coq Require Import List QArith Qabs ZArith Reals Lia.
 Import ListNotations.
-From PP Require Import Model.C28 Proofs.C28 Proofs.C28_sqrt.
+From PP Require Import Model.C28 Proofs.C28 Proofs.C28_sqrt Proofs.C28_3d Proofs.C28_box.
 Open Scope Q_scope.
 
 (* 2-D, full strength: for all integer endpoints with |coordinate| <= 1000 (inbox), both
@@ -87,6 +87,52 @@ Theorem C28_3d_point_sound_partial :
 Proof. exact seg3d_point_sound. Qed.
 Print Assumptions C28_3d_point_sound_partial.
 
+(* 3-D, guarded correctness of the point branch (PARTIAL: the guard excludes the whole
+   "parallel" branch — i.e. both open defect families AND the correctly handled truly
+   parallel inputs, which are covered by C28_3d_box_partial below):  for arbitrary
+   rational end points and tol > 0, when the projected-discriminant test does not fire and
+   the final |z1 - z2| < tol test answers like z1 == z2 ([sep3], decidable), segments_3d
+   returns exactly seg1 ∩ seg2 (None iff disjoint, one column iff that point). *)
+Theorem C28_3d_point_branch_correct_partial :
+  forall tol a0 a1 a2 b0 b1 b2 c0 c1 c2 d0 d1 d2,
+    0 < tol ->
+    sep3 tol [a0; a1; a2] [b0; b1; b2] [c0; c1; c2] [d0; d1; d2] = true ->
+    correct3 [a0; a1; a2] [b0; b1; b2] [c0; c1; c2] [d0; d1; d2]
+             (seg3d tol [a0; a1; a2] [b0; b1; b2] [c0; c1; c2] [d0; d1; d2]).
+Proof. exact seg3d_correct_sep. Qed.
+Print Assumptions C28_3d_point_branch_correct_partial.
+
+(* the same for integer end points with |coord| <= 1000 and tol = 1e-8, where the guard
+   is just: the discriminant in the projection segments_3d picks is not zero. *)
+Theorem C28_3d_point_branch_correct_int_partial :
+  forall ax ay az bx by_ bz cx cy cz dx dy dz : Z,
+    inbox ax -> inbox ay -> inbox az -> inbox bx -> inbox by_ -> inbox bz ->
+    inbox cx -> inbox cy -> inbox cz -> inbox dx -> inbox dy -> inbox dz ->
+    let A := zpt3 ax ay az in let B := zpt3 bx by_ bz in
+    let C := zpt3 cx cy cz in let D := zpt3 dx dy dz in
+    ~ proj_discr A B C D == 0 ->
+    correct3 A B C D (seg3d tol8 A B C D).
+Proof. exact seg3d_correct_int. Qed.
+Print Assumptions C28_3d_point_branch_correct_int_partial.
+
+(* 3-D, the whole function on a finite domain, with a guard that excludes EXACTLY the two
+   open defect families (PARTIAL: finite box; the reference [isect3_ref] is an exact
+   rational intersection routine written in Coq, not the Prop-level spec):  for ALL
+   integer end points in {-1,0,1}^3, segments of non-zero length, unless
+     family1 — projected discriminant 0 although the lines are not parallel, or
+     family2 — parallel (colinear) segments meeting in exactly one point,
+   segments_3d returns the same classification and the same points as the exact
+   intersection.  Proved by exhaustive vm_compute over the 27^4 quadruples. *)
+Theorem C28_3d_box_partial :
+  forall a b c d : t3,
+    inb1 a -> inb1 b -> inb1 c -> inb1 d ->
+    let A := q3 a in let B := q3 b in let C := q3 c in let D := q3 d in
+    veq A B = false -> veq C D = false ->
+    family1 A B C D = false -> family2 A B C D = false ->
+    res3_same (seg3d tol8 A B C D) (isect3_ref A B C D) = true.
+Proof. exact seg3d_box. Qed.
+Print Assumptions C28_3d_box_partial.
+
 (* Non-vacuity: concrete instances of the hypotheses, with the results. *)
 Example C28_nonvacuous_2d :
   inbox 0 /\ inbox 4 /\ (0, 0)%Z <> (4, 4)%Z /\ (0, 4)%Z <> (4, 0)%Z /\
@@ -112,3 +158,25 @@ Qed.
 Example C28_nonvacuous_3d :
   seg3d tol8 [1; 0; 1] [1; 1; -1] [0; 0; 1] [4; 3; -5] = R3Cols [[4 # 4; 3 # 4; -2 # 4]].
 Proof. exact seg3d_point_example. Qed.
+
+Example C28_nonvacuous_3d_guard :
+  sep3 tol8 [1; 0; 1] [1; 1; -1] [0; 0; 1] [4; 3; -5] = true /\
+  ~ proj_discr (zpt3 1 0 1) (zpt3 1 1 (-1)) (zpt3 0 0 1) (zpt3 4 3 (-5)) == 0 /\
+  inbox (-5) /\ inbox 4.
+Proof.
+  split; [vm_compute; reflexivity|]. split; [|unfold inbox; lia].
+  intro H. vm_compute in H. discriminate.
+Qed.
+
+Example C28_nonvacuous_3d_box :
+  let a := (-1, -1, -1)%Z in let b := (1, 1, 1)%Z in let c := (0, 0, 0)%Z in let d := (1, 1, 1)%Z in
+  inb1 a /\ inb1 b /\ inb1 c /\ inb1 d /\
+  veq (q3 a) (q3 b) = false /\ veq (q3 c) (q3 d) = false /\
+  family1 (q3 a) (q3 b) (q3 c) (q3 d) = false /\ family2 (q3 a) (q3 b) (q3 c) (q3 d) = false /\
+  seg3d tol8 (q3 a) (q3 b) (q3 c) (q3 d) = R3Cols [[0; 0; 0]; [1; 1; 1]] /\
+  (* and the two families are inhabited inside the box *)
+  family1 (q3 (0, 0, 0)%Z) (q3 (1, 1, 0)%Z) (q3 (0, 0, -1)%Z) (q3 (1, 1, 1)%Z) = true /\
+  family2 (q3 (-1, -1, -1)%Z) (q3 (0, 0, 0)%Z) (q3 (0, 0, 0)%Z) (q3 (1, 1, 1)%Z) = true.
+Proof.
+  cbv zeta. unfold inb1. repeat split; try lia; vm_compute; reflexivity.
+Qed.
